@@ -20,10 +20,10 @@ package c17
 
 import (
 	"fmt"
-	"runtime"
 	"sort"
 	"strings"
 	"sync"
+	"sync/atomic"
 	"time"
 
 	"github.com/iotaledger/hive.go/runtime/syncutils"
@@ -311,6 +311,8 @@ type result struct {
 	Trace     []string
 	Blocked   int  // operations that were observed outstanding while another operation was issued and were granted later
 	MaxQueued int  // max number of outstanding (blocked) operations on one entity
+	Parked    int  // must-block operations confirmed parked in sync.Cond.Wait before the next operation was issued
+	NotParked int  // ... not confirmed within the budget (arrival order not enforced for that operation)
 	Injected  bool // the injection was executed (certainly-not-held held at Pos)
 	InjPanic  string
 	InjClass  string // nothing_held | wrong_mode, optionally +waiters
@@ -327,6 +329,9 @@ func (r result) payload(s script, inj *injection) map[string]any {
 
 var graceDur = 150 * time.Microsecond
 
+// graceBudget bounds the best-effort wait for a must-block operation to park.
+var graceBudget = 3 * time.Millisecond
+
 // runScript executes the script on a fresh mutex under the controller.
 func runScript(s script, inj *injection) (res result) {
 	l := newLocker(s.Mutex)
@@ -338,9 +343,11 @@ func runScript(s script, inj *injection) (res result) {
 	}
 	events := make(chan event, total+4)
 	cmds := make([]chan int, n)
+	gids := make([]atomic.Int64, n)
 	for g := 0; g < n; g++ {
 		cmds[g] = make(chan int, 1)
 		go func(g int) {
+			gids[g].Store(curGoroutineID())
 			for idx := range cmds[g] {
 				o := s.Progs[g][idx]
 				var pv any
@@ -448,7 +455,7 @@ func runScript(s script, inj *injection) (res result) {
 		}
 	}
 	// settle waits until every outstanding operation may legitimately be blocked.
-	settle := func(grace bool) bool {
+	settle := func(graceFor int) bool {
 		for res.Kind == "" {
 			b := blockedSet(mon, outstanding)
 			must := false
@@ -464,10 +471,18 @@ func runScript(s script, inj *injection) (res result) {
 				}
 				continue
 			}
-			if grace {
-				grace = false
-				runtime.Gosched()
-				if waitEvent(graceDur) {
+			if graceFor >= 0 {
+				// the operation must block: let it reach its wait inside the mutex before the next
+				// operation is issued (best effort; counts how often the parked state was confirmed)
+				g := graceFor
+				graceFor = -1
+				if waitParked(gids[g].Load, func() bool { return len(events) > 0 }, graceBudget) {
+					res.Parked++
+				} else {
+					res.NotParked++
+				}
+				if len(events) > 0 {
+					waitEvent(graceDur)
 					continue
 				}
 			}
@@ -600,7 +615,11 @@ func runScript(s script, inj *injection) (res result) {
 			trace("issue G%d %s", g, o)
 			cmds[g] <- idx
 			queuedStats()
-			if !settle(blockedSet(mon, outstanding)[g]) {
+			graceFor := -1
+			if blockedSet(mon, outstanding)[g] {
+				graceFor = g
+			}
+			if !settle(graceFor) {
 				break
 			}
 		} else {
@@ -612,7 +631,7 @@ func runScript(s script, inj *injection) (res result) {
 					fail("unlock_hang", "G%d: %s did not return within %s; outstanding %s; registered holders: %s", g, o, ctl.HangTimeout, describeOutstanding(), mon.describe())
 				}
 			}
-			if res.Kind != "" || !settle(false) {
+			if res.Kind != "" || !settle(-1) {
 				break
 			}
 		}
